@@ -96,25 +96,25 @@ theorem place_operators_use_absolute_offsets (t : MatchTable) (s i off lo hi : N
   ⟨found_spec t s, count_spec t s, foundAt_spec t s off, foundIn_spec t s lo hi, countIn_spec t s lo hi,
    offset_spec t s i, length_spec t s i, ofAt_spec t ss off, ofIn_spec t ss lo hi⟩
 
-/-- **Partition invariance** (strings that are not chained — `hnc`; the pieces of a CHAINED string are combined by their offsets
-    inside the block, see `chained_pieces_combine_by_in_block_offsets` — any partition that does not cut an occurrence: the blocks' candidates, put at their
+/-- **Partition invariance** (strings that are not chained — `hnc`; for chained strings see `two_piece_chain_in_one_block`,
+    `pieces_in_different_blocks_never_combine`, `chain_in_one_part_equals_whole` below — any partition that does not cut an occurrence: the blocks' candidates, put at their
     absolute offsets `base + off` and concatenated, are the candidates of the whole buffer — also for bases that
     are not contiguous): collecting the matches block by block gives the same absolute match table, the same
     too-many-matches dialogue with the callback, the same result code and the same remaining state as collecting
     them from the single block `whole`. Any limit, any callback script, fast mode or not. -/
 theorem partition_invariant_matches (P : Params) (cb : Nat → CbRet) (fast : Bool) (parts : List (Block × List Cand))
-    (whole : Block) (ksW : List Cand) (c : Core) (w : World) (hnc : ∀ s, P.chain s = none)
+    (whole : Block) (ksW : List Cand) (c : Core) (w : World) (hnc : ∀ s, P.chain s = none) (hu : c.unconfirmed = [])
     (hk : absCands whole ksW = parts.flatMap fun p => absCands p.1 p.2) :
     let a := collect P cb fast parts c w
     let b := addCands P cb fast whole ksW c w
     absT a.1.found = absT b.1.found ∧ { a.1 with found := [] } = { b.1 with found := [] } ∧ a.2 = b.2 := by
-  have := collect_partition P cb fast parts whole ksW c c w hnc (Core.AbsEq.refl c) hk
+  have := collect_partition P cb fast parts whole ksW c c w hnc hu (Core.AbsEq.refl c) hk
   exact ⟨this.1.found, this.1.rest, this.2⟩
 
 /-- … hence every place operator (and every condition built from them) has the same value after scanning the partition
     as after scanning the whole buffer in one block (`yr_rules_scan_mem` of the same bytes). -/
 theorem partition_invariant_operators (P : Params) (cb : Nat → CbRet) (fast : Bool) (parts : List (Block × List Cand))
-    (whole : Block) (ksW : List Cand) (c : Core) (w : World) (hnc : ∀ s, P.chain s = none)
+    (whole : Block) (ksW : List Cand) (c : Core) (w : World) (hnc : ∀ s, P.chain s = none) (hu : c.unconfirmed = [])
     (hk : absCands whole ksW = parts.flatMap fun p => absCands p.1 p.2) (s i off lo hi : Nat) (ss : List Nat) :
     let ta := (collect P cb fast parts c w).1.found
     let tb := (addCands P cb fast whole ksW c w).1.found
@@ -123,14 +123,14 @@ theorem partition_invariant_operators (P : Params) (cb : Nat → CbRet) (fast : 
     PlaceOps.countIn ta s lo hi = PlaceOps.countIn tb s lo hi ∧ PlaceOps.offset ta s i = PlaceOps.offset tb s i ∧
     PlaceOps.length ta s i = PlaceOps.length tb s i ∧ PlaceOps.ofAt ta ss off = PlaceOps.ofAt tb ss off ∧
     PlaceOps.ofIn ta ss lo hi = PlaceOps.ofIn tb ss lo hi := by
-  have h := (partition_invariant_matches P cb fast parts whole ksW c w hnc hk).1
+  have h := (partition_invariant_matches P cb fast parts whole ksW c w hnc hu hk).1
   simp [found_spec, count_spec, foundAt_spec, foundIn_spec, countIn_spec, offset_spec, length_spec, ofAt_spec, ofIn_spec, h]
 
 /-- The same at the level of the block loop of `yr_scanner_scan_mem_blocks`: an iterator that is never late over plain
     blocks (data available, no executable header, no verifier error), no timeout. The loop over the partition and the
     loop over the single block `whole` end with the same absolute match table, messages and result code. -/
 theorem block_loop_partition_invariant (P : Params) (cb : Nat → CbRet) (set : Settings) (blocks : List Block) (whole : Block)
-    (c : Core) (w : World) (hnc : ∀ s, P.chain s = none)
+    (c : Core) (w : World) (hnc : ∀ s, P.chain s = none) (hu : c.unconfirmed = [])
     (ht : set.timeout = 0) (hb : ∀ b ∈ blocks, PlainBlock P set b) (hw : PlainBlock P set whole)
     (hk : absCands whole (blockCands P whole) = blocks.flatMap fun b => absCands b (blockCands P b)) :
     let a := blockLoop P cb set blocks [] c w
@@ -140,8 +140,8 @@ theorem block_loop_partition_invariant (P : Params) (cb : Nat → CbRet) (set : 
   have ha := blockLoop_collect P cb set blocks c w ht hb
   have hb' := blockLoop_collect P cb set [whole] c w ht (by simpa using hw)
   have hp := collect_partition P cb set.fastMode (blocks.map fun b => (b, blockCands P b)) whole (blockCands P whole) c c w
-    hnc (Core.AbsEq.refl c) (by simpa [List.flatMap_map] using hk)
-  simp only [List.map_cons, List.map_nil, collect] at hb'
+    hnc hu (Core.AbsEq.refl c) (by simpa [List.flatMap_map] using hk)
+  simp only [List.map_cons, List.map_nil, collect, clear_unconfirmed_id c hu] at hb'
   rcases hW : addCands P cb set.fastMode whole (blockCands P whole) c w with ⟨cW, wW, msW, eW⟩
   rw [hW] at hp hb'
   rw [← ha] at hp
@@ -152,24 +152,63 @@ theorem block_loop_partition_invariant (P : Params) (cb : Nat → CbRet) (set : 
   obtain ⟨hf, hw', hm, he⟩ := hp
   exact ⟨by rw [h1]; exact hf.found, by rw [h3]; exact hm, by rw [h4]; exact he, by rw [h2]; exact hw'⟩
 
-/-- **Chained strings and blocks — the code's behaviour, made explicit.** The pieces of a chained string are combined by their
-    offsets INSIDE their blocks (`match->offset`, scan.c :440-500), the block base is ignored. Head `AA BB CC DD` at absolute
-    offset 10 and tail `EE FF 00 11` at absolute offset 40 of one 64-byte buffer, `{ AA BB CC DD [-] EE FF 00 11 }`:
-    as ONE block the string matches at 10 with length 34; as blocks [0,20) [20,64) the tail (in-block offset 20) is combined
-    with the head of the previous block and a match at 10 with length 14 is reported; with the head at 30 and the tail at
-    absolute 45 in blocks [0,40) [40,64) (in-block offset 5 < 34) nothing is reported. So for chained strings a partition
-    is NOT equivalent to the whole buffer even if it cuts no piece (finding; `partition_invariant_*` exclude chains). -/
-theorem chained_pieces_combine_by_in_block_offsets :
-    let P : Params := { rules := [], imports := [], strRule := fun _ => 0, maxMatches := 1000, cands := fun _ => [],
-                        ep := fun _ _ _ _ => none, singleMatch := fun _ => false, scanErr := fun _ => none,
-                        chain := fun s => if s = 0 then some ⟨none, 0, 0, false⟩ else if s = 1 then some ⟨some 0, 0, 2147483647, true⟩ else none,
-                        pruneSlack := 1028, cond := fun _ _ => .ret false, modParse := fun _ _ => none }
-    let run (parts : List (Block × List Cand)) := (collect P (fun _ => .cont) false parts Core.fresh ⟨0, 0⟩).1.found
-    run [(⟨0, 64, some 0⟩, [⟨0, 10, 4⟩, ⟨1, 40, 4⟩])] = [(0, [⟨0, 10, 34⟩])] ∧
-    run [(⟨0, 20, some 0⟩, [⟨0, 10, 4⟩]), (⟨20, 44, some 1⟩, [⟨1, 20, 4⟩])] = [(0, [⟨0, 10, 14⟩])] ∧
-    run [(⟨0, 40, some 0⟩, [⟨0, 30, 4⟩]), (⟨40, 24, some 1⟩, [⟨1, 5, 4⟩])] = [] := by
-  decide
+/-! ### Chained strings and blocks (after /repo 173a2ea: the unconfirmed lists are cleared at the start of every block)
 
+    Spec decision, explicit: a chained string is reported iff ALL its pieces lie in ONE block at admissible gaps; the match
+    is at `base + head offset` and its length is the true one (`tail end - head start`). A partition that keeps a chain
+    inside one block reports it exactly as the whole buffer does; a partition that separates the pieces reports nothing for
+    that occurrence, and never invents one. Stated and proved for the two-piece chain `chainP gmin gmax`
+    (`{ head [gmin-gmax] tail }`, any offsets, lengths, bases); longer chains and several occurrences are covered by the tie. -/
+
+/-- **one block**: the chain is reported iff the tail starts `gmin..gmax` bytes after the end of the head, at the block's base +
+    the head's offset, with the true length -/
+theorem two_piece_chain_in_one_block (gmin gmax : Nat) (cb : Nat → CbRet) (b : Block) (oh lh ot lt : Nat) (w : World) :
+    (addCands (chainP gmin gmax) cb false b [⟨0, oh, lh⟩, ⟨1, ot, lt⟩] Core.fresh w).1.found =
+      if oh + lh + gmin ≤ ot ∧ ot ≤ oh + lh + gmax then [(0, [⟨b.base, oh, ot - oh + lt⟩])] else [] := by
+  by_cases h1 : oh + lh + gmin ≤ ot <;> by_cases h2 : ot ≤ oh + lh + gmax
+  · have h3 : ¬ (oh + lh + gmax + 1028 < ot) := by omega
+    simp [addCands, chainP, chainStep, Core.fresh, uget, uset, insU, pruneScan, gapOk, propagate, maxChain, chainHead, tset, tget,
+      insMatch, setIns, h1, h2, h3]
+  · have h3 : ¬ (ot ≤ oh + lh + gmax) := h2
+    by_cases h4 : oh + lh + gmax + 1028 < ot <;>
+    simp [addCands, chainP, chainStep, Core.fresh, uget, uset, insU, pruneScan, gapOk, tset, tget, h1, h2, h4]
+  · by_cases h4 : oh + lh + gmax + 1028 < ot <;>
+    simp [addCands, chainP, chainStep, Core.fresh, uget, uset, insU, pruneScan, gapOk, tset, tget, h1, h2, h4]
+  · by_cases h4 : oh + lh + gmax + 1028 < ot <;>
+    simp [addCands, chainP, chainStep, Core.fresh, uget, uset, insU, pruneScan, gapOk, tset, tget, h1, h2, h4]
+
+/-- **different blocks**: head in one block and tail in the next (or the other way round) — nothing is reported, whatever the
+    in-block offsets (before the fix they were combined by in-block offsets: finding F67) -/
+theorem pieces_in_different_blocks_never_combine (gmin gmax : Nat) (cb : Nat → CbRet) (b1 b2 : Block) (oh lh ot lt : Nat) (w : World) :
+    (collect (chainP gmin gmax) cb false [(b1, [⟨0, oh, lh⟩]), (b2, [⟨1, ot, lt⟩])] Core.fresh w).1.found = [] ∧
+    (collect (chainP gmin gmax) cb false [(b1, [⟨1, ot, lt⟩]), (b2, [⟨0, oh, lh⟩])] Core.fresh w).1.found = [] := by
+  constructor <;>
+  simp [collect, addCands, chainP, chainStep, Core.fresh, uget, uset, insU, pruneScan, gapOk, tget]
+
+/-- **in general** (any parameters, any chains): what a block scan does is independent of the pieces left pending by earlier blocks -/
+theorem scanBlock_ignores_pending (P : Params) (cb : Nat → CbRet) (set : Settings) (b : Block) (c : Core) (u : UTable) (w : World)
+    (hd : b.data.isSome) :
+    (scanBlock P cb set b { c with unconfirmed := u } w) = (scanBlock P cb set b { c with unconfirmed := [] } w) := by
+  cases hb : b.data with
+  | none => rw [hb] at hd; cases hd
+  | some d =>
+    simp only [scanBlock, hb]
+    split <;> rfl
+
+/-- **partition invariance for a chain kept inside one part**: the same absolute match (or none) as scanning the whole buffer as
+    one block at base 0 -/
+theorem chain_in_one_part_equals_whole (gmin gmax : Nat) (cb : Nat → CbRet) (b1 b2 : Block) (sizeW : Nat) (oh lh ot lt : Nat) (w : World) :
+    absT (collect (chainP gmin gmax) cb false [(b1, []), (b2, [⟨0, oh, lh⟩, ⟨1, ot, lt⟩])] Core.fresh w).1.found =
+    absT (collect (chainP gmin gmax) cb false [(⟨0, sizeW, some 0⟩, [⟨0, b2.base + oh, lh⟩, ⟨1, b2.base + ot, lt⟩])] Core.fresh w).1.found := by
+  by_cases h1 : oh + lh + gmin ≤ ot <;> by_cases h2 : ot ≤ oh + lh + gmax <;>
+    by_cases h4 : oh + lh + gmax + 1028 < ot
+  all_goals
+    have h1' : (b2.base + oh + lh + gmin ≤ b2.base + ot) = (oh + lh + gmin ≤ ot) := by simp; omega
+    have h2' : (b2.base + ot ≤ b2.base + oh + lh + gmax) = (ot ≤ oh + lh + gmax) := by simp; omega
+    have h4' : (b2.base + oh + lh + gmax + 1028 < b2.base + ot) = (oh + lh + gmax + 1028 < ot) := by simp; omega
+    have h5 : b2.base + ot - (b2.base + oh) = ot - oh := by omega
+    simp [collect, addCands, chainP, chainStep, Core.fresh, uget, uset, insU, pruneScan, gapOk, propagate, maxChain, chainHead, tset, tget,
+      insMatch, setIns, absT, absM, Match.pos, h1, h2, h4, h1', h2', h4', h5]
 /-- non-vacuity: "MARKER" at absolute offset 10 of a 16-byte buffer, delivered as blocks [0,4) [4,9) [9,16) (the
     match is in the third block at in-block offset 1) or as blocks with bases 0, 100, 200 (not contiguous): `in`, `at`,
     `@`, `#..in` see offset 10 resp. 201; a version that forgot the base would see 1. -/
